@@ -282,6 +282,44 @@ def shared_then_writer_schedules(rng):
     return out
 
 
+def addon_sequence_schedules(rng):
+    """Two stages; the tasks of the second one are, in varying order, refused at run time (they really
+    conflict with a task of the running stage, on tables the other candidates touch as well),
+    accepted (statically conflicting but disjoint by filter, or independent), or refused because of
+    a resource or an entry view. Whatever the bookkeeping does with a refused or accepted candidate
+    must not change the verdict on the next one."""
+    out = []
+
+    def T(views, filt=("none",), res=(), entry=(), par=False):
+        return Sys(par, list(views), filt, list(res), list(entry))
+
+    for variant in range(8):
+        a, b, c, d, e = rng.sample(range(len(COMPS)), 5)
+        r = rng.randrange(len(RES))
+        s1_plain = [T([(K_MUT, a)]), T([(K_MUT, b)], ("has", c))]
+        s1_filtered = [T([(K_MUT, a)], ("has", d)), T([(K_MUT, b)])]
+        if variant == 0:
+            tasks = s1_plain + [T([(K_REF, a)]), T([(K_MUT, b)], par=True)]
+        elif variant == 1:
+            # refused reader of b, then a writer of a restricted to tables that also hold b
+            tasks = s1_plain + [T([(K_REF, b)]), T([(K_MUT, a)], ("has", b))]
+        elif variant == 2:
+            tasks = s1_plain + [T([(K_MUT, a)]), T([(K_MUT, e)]), T([(K_REF, b)])]
+        elif variant == 3:
+            tasks = s1_filtered + [T([(K_MUT, a)], ("not", ("has", d))), T([(K_REF, b)]), T([(K_MUT, c)])]
+        elif variant == 4:
+            tasks = s1_filtered + [T([(K_OPT, b)]), T([(K_OPTMUT, a)], ("not", ("has", d)))]
+        elif variant == 5:
+            tasks = s1_filtered + [T([(K_MUT, a)], ("not", ("has", d))), T([(K_MUT, e)], par=True), T([(K_MUT, b)], ("has", a))]
+        elif variant == 6:
+            tasks = s1_plain + [T([(K_REF, e)], entry=[(K_MUT, a)]), T([(K_REF, b)], ("has", a))]
+        else:
+            s1 = [T([(K_MUT, a)], res=[(K_MUT, r)]), T([(K_MUT, b)])]
+            tasks = s1 + [T([(K_MUT, c)], res=[(K_REF, r)]), T([(K_REF, b)]), T([(K_MUT, e)], res=[(K_MUT, r)])]
+        out.append(("addonsequence", tasks))
+    return out
+
+
 def emit_system(w, name, task, salt, s):
     trait = "ParSystem" if s.par else "System"
     w(f"pub struct {name} {{ pub st: SysState }}")
@@ -420,6 +458,8 @@ def main():
         scheds = zero_view_schedules(rng)
     if "--shared" in sys.argv:
         scheds = shared_then_writer_schedules(rng)
+    if "--addonseq" in sys.argv:
+        scheds = addon_sequence_schedules(rng)
     while len(scheds) < nbins * per:
         nt = rng.choice([2, 3, 3, 4, 4, 5, 6])
         bias = rng.randrange(len(COMPS))
